@@ -1,6 +1,7 @@
 package checks
 
 import (
+	"strings"
 	"encoding/binary"
 	"encoding/json"
 	"fmt"
@@ -44,6 +45,11 @@ var c05Exprs = []struct {
 	{"d%[1]dmin2 + d%[1]dmax2 + d%[1]d", [][2]int64{{2, 0}, {0, 2}, {0, 0}}},
 	{"[d%[1]dmin%[1]d, d%[1]d, d%[1]d].sum()", [][2]int64{{-1, 0}, {0, 0}, {0, 0}}},
 	{"func g(){ d%[1]dmax1 + d%[1]d }; g() + d%[1]d", [][2]int64{{0, 1}, {0, 0}, {0, 0}}},
+	// dice inside a computed value, a template, a container, a nested function: all drawn from the context's own generator, in order
+	{"&c = d%[1]d; c + d%[1]d", [][2]int64{{0, 0}, {0, 0}}},
+	{"&c = d%[1]d + d%[1]d; d%[1]d + c", [][2]int64{{0, 0}, {0, 0}, {0, 0}}},
+	{"&c = d%[1]d; func g(){ c + d%[1]d }; g() + c", [][2]int64{{0, 0}, {0, 0}, {0, 0}}},
+	{"x = {'k': d%[1]d}; x.k + [d%[1]d, 0][0]", [][2]int64{{0, 0}, {0, 0}}},
 }
 
 // ---- independent PCG (128-bit LCG, XSL-RR output), written from the PCG paper / x/exp/rand constants
@@ -161,6 +167,11 @@ func c05Enumerate(tier string, seed int64, emit func(string, any)) {
 				emit("stream: several dice in one evaluation", c05Case{Kind: "stream-expr", N: n, Seed: s, Expr: e})
 			}
 		}
+	}
+	// dice without written sides: the default-sides setting in force decides, also after it was changed on a used VM
+	for s := int64(1); s <= 4; s++ {
+		emit("stream: default sides changed on a used VM", c05Case{Kind: "stream-def", N: 6, Seed: s})
+		emit("stream: default sides changed on a used VM", c05Case{Kind: "stream-def", N: 100, Seed: s})
 	}
 	// VMs that were never given a seed share ONE process-wide generator: their dice are successive draws of it (never the same draws twice)
 	for s := int64(1); s <= 6; s++ {
@@ -300,6 +311,34 @@ func c05Run(raw json.RawMessage) harn.Result {
 		}
 		res.Stats["words"] = words
 		res.Sample = fmt.Sprintf("n=%d: %d words in %d windows through _roll64 vs reference", n, words, len(windows))
+	case "stream-def":
+		cfg := drv.AllOn()
+		cfg.Seed = c.Seed
+		cfg.DefExpr = fmt.Sprint(c.N)
+		vm := drv.NewVM(cfg)
+		seedBytes := drv.SeedBytes(c.Seed)
+		st := u128{binary.BigEndian.Uint64(seedBytes[:8]), binary.BigEndian.Uint64(seedBytes[8:])}
+		for step, n := range []int64{c.N, c.N * 3, 2, c.N} {
+			vm.Config.DefaultDiceSideExpr = fmt.Sprint(n)
+			if err := vm.Run("4d"); err != nil {
+				viol("C05:stream:error", err.Error())
+				return res
+			}
+			var want []uint64
+			for i := 0; i < 4; i++ {
+				want = append(want, refRoll64(&st, uint64(n)))
+			}
+			got := atoiAllBig(strings.SplitN(vm.DetailSpans[0].Text, "=", 2)[len(strings.SplitN(vm.DetailSpans[0].Text, "=", 2))-1])
+			same := len(got) == 4
+			for i := 0; same && i < 4; i++ {
+				same = got[i] == want[i]
+			}
+			if !same {
+				viol("C05:stream:faces", fmt.Sprintf("seed %d step %d: 4d with DefaultDiceSideExpr=%d rolled %v (%q), the reference stream gives %v", c.Seed, step, n, got, vm.DetailSpans[0].Text, want))
+				return res
+			}
+		}
+		res.Sample = "default sides changed on a used VM"
 	case "stream-shared":
 		ds.VerifSeedGlobal(uint64(c.Seed) * 7919)
 		b0, _ := ds.VerifGlobalSource().MarshalBinary()
